@@ -444,6 +444,7 @@ def faults(payload):
 
 # ------------------------------------------------------------------ driver
 def run(tier, seed, only=None):
+    pool.set_recycle(30)
     rep = Report(
         PID, tier, seed, "fault_enumeration",
         rule="(a) BFS over histories of read-only computations / override blocks (10 kinds x bodies incl. nested blocks; every ordered pair of kinds from the initial state) / persistent selection+parameter ops on a real "
